@@ -252,7 +252,22 @@ def check_invariants(state, goal_key, item, H, case, last_method):
 
 # ------------------------------------------------------------------ ops
 PERT = ['other_gap', 'other_facts', 'repeat', 'cut', 'cases', 'intro_names', 'forall_elim', 'inst_exists', 'revert_intro',
-        'new_var']
+        'new_var', 'cut_sub']
+
+
+def _subprops(t, out, depth=0):
+    """Propositional components (not under binders) of a formula: candidates for a cut on a sub-formula."""
+    if depth > 4:
+        return
+    if t.is_implies() or t.is_conj() or t.is_disj():
+        for a in (t.arg1, t.arg):
+            if a not in out:
+                out.append(a)
+            _subprops(a, out, depth + 1)
+    elif t.is_not():
+        if t.arg not in out:
+            out.append(t.arg)
+        _subprops(t.arg, out, depth + 1)
 
 
 def build_step(state, op, item, cursor, last_step):
@@ -320,6 +335,14 @@ def build_step(state, op, item, cursor, last_step):
                 text = printer.print_term(t)
                 return ({'method_name': 'cut', 'goal_id': gid, 'fact_ids': [], 'goal': text} if pk == 'cut' else
                         {'method_name': 'cases', 'goal_id': gid, 'fact_ids': [], 'case': text}), False
+            if pk == 'cut_sub':
+                subs = []
+                for p in facts:
+                    _subprops(state.prf.find_item(_iid(p)).th.prop, subs)
+                _subprops(gitem.th.prop, subs)
+                if not subs:
+                    return None
+                return {'method_name': 'cut', 'goal_id': gid, 'fact_ids': [], 'goal': printer.print_term(subs[j % len(subs)])}, False
             if pk == 'intro_names':
                 vs = sorted(state.get_vars(gid))
                 names = [edit_lib.fresh_name(state, gid, 'u'), edit_lib.fresh_name(state, gid, 'w')]
